@@ -23,6 +23,7 @@ LN_RING = ("Theorems are about models M1 (AtomicMove) / M2 (FullSyncMove), not a
            "Sequential consistency assumed; index-based cancel is excluded from the executions the ring theorems quantify over unless the cancel is exact (see cancel_steals in DESIGN.md).")
 
 MULTI_KINDS = ["arc_atomic", "arc_fullsync", "arc_crossbeam", "ogre_atomic", "ogre_fullsync"]
+MULTI1_KINDS = ["marc_atomic", "marc_fullsync", "marc_crossbeam", "mogre_atomic", "mogre_fullsync"]   # Multi channels through one listener
 UNI_KINDS = ["mfullsync", "matomic", "mcrossbeam", "zatomic", "zfullsync"]
 UNI_RULE = ("real Uni channels (N in {2,4}, MAX_STREAMS in {1,2}, 1..MAX streams created) with 1-3 producers using send / send_with / send_with_async "
             "(suspended for a random number of turns) / reserve+send-reserved and hand-driven stream tasks that park on Pending and are re-polled when their waker "
@@ -119,10 +120,11 @@ PROPS = {
     assumptions=["counts stay below the documented u32::MAX reset"],
  ),
  "C04": dict(
-    level_text="Lean 4 proof of `no reachable state is stuck` (an accepted event pending, all producers returned, every live stream parked and un-notified) for the poll/park/wake protocol model, for all four wake rules (uni full-sync, atomic, crossbeam, send-reserved), every number of streams/producers/buffer sizes/schedules, spurious polls and waker changes included, by an inductive invariant; counterexample theorems for what the invariant does not survive (movable send_with_async, MAX_STREAMS = 0). Tied to the five real Uni channels by step-level replay of scheduled runs - including runs that end stuck, where model and code agree step by step; stuck states are decided by the scheduler (nobody runnable), not timed out. A second, finer-grained search (every ring access a yield point) judges the implementation alone.",
-    level_note="Theorem about model M8, in which a queue operation is one step (C02) - the two-phase publication of the atomic rings is visible only to the oracle-only `fine` search; one task per stream token for C07; Multi channels and the log channel use the same streams-manager code but their per-listener rules are covered by the oracle of the multi scenarios only. Known findings are listed in known_findings.json.",
+    level_text="Lean 4 proof of `no reachable state is stuck` (an accepted event pending, all producers returned, every live stream parked and un-notified) for the poll/park/wake protocol model, for all six wake rules (uni full-sync, atomic, crossbeam, send-reserved; a Multi listener's queue on the atomic and on the full-sync channels), every number of streams/producers/buffer sizes/schedules, spurious polls and waker changes included, by an inductive invariant; counterexample theorems for what the invariant does not survive (movable send_with_async, MAX_STREAMS = 0). Tied to the five real Uni channels by step-level replay of scheduled runs - including runs that end stuck, where model and code agree step by step; stuck states are decided by the scheduler (nobody runnable), not timed out. A second, finer-grained search (every ring access a yield point) judges the implementation alone.",
+    level_note="Theorem about model M8, in which a queue operation is one step (C02) - the two-phase publication of the atomic rings is visible only to the oracle-only `fine` search; one task per stream token for C07; Multi channels are replayed through one listener (MAX_STREAMS = 1; with several listeners each queue runs the same protocol independently); the log channel wakes every listener after every publication (covered by the oracle of its own scenario). Known findings are listed in known_findings.json.",
     lean=["C04"],
     scenarios=[dict(bin="uni", args=[f"kind={k}", "sub=flow"], runs=500, model_name="M8 Wake", kinds=["lost_wakeup", "no_progress", "panic"]) for k in UNI_KINDS] +
+              [dict(bin="uni", args=[f"kind={k}", "sub=flow"], runs=300, model_name="M8 Wake", kinds=["lost_wakeup", "no_progress", "panic"]) for k in MULTI1_KINDS] +
               [dict(bin="uni", args=[f"kind={k}", "sub=fine"], runs=300, model=False, model_name="(oracle only)", kinds=["lost_wakeup", "no_progress", "panic"]) for k in UNI_KINDS],
     rule=UNI_RULE,
     trusted_base=TB_COMMON + ["crossbeam-channel: linearizable bounded queue with a linearizable len()", "the hand-rolled executor of the harness (re-polls a parked task iff its waker fired, or spuriously) stands for tokio's"],
@@ -165,7 +167,7 @@ PROPS = {
     level_text="Lean 4 proof: (ring M1) with every other thread idle each operation completes within 5 own steps, consumers complete and receive the front element even while reservations are outstanding, whereas a publication behind a suspended reservation can never complete (tail cannot pass it) - the model-level witness of the movable-atomic finding; (lock ring M2) while a thread sits at the write point holding the flag nobody else ever acquires it - witness of the movable-full-sync finding - and with the flag free every operation completes in 5 own steps; zero-copy and Multi send_with_async suspend holding only a pool slot (model M8 asyncZc: every other action stays enabled). Tied to the code: scheduled runs with one send_with_async suspended until all other producers finish; the scheduler's stall verdict decides `never returns`.",
     level_note="Theorems about models M1/M2/M8; the two known findings (movable atomic, movable full-sync) are listed in known_findings.json; the retry-when-full loops of the crossbeam and arc channels wait by documented design and are outside the statement; log channel: send_with_async is todo!() upstream.",
     lean=["C20", "C20_LockRing"],
-    scenarios=[dict(bin="uni", args=[f"kind={k}", "sub=susp"], runs=100, model=False, model_name="(oracle only)", kinds=["blocked_by_suspended_send", "panic", "invented", "duplicate", "lost"]) for k in UNI_KINDS],
+    scenarios=[dict(bin="uni", args=[f"kind={k}", "sub=susp"], runs=100, model=False, model_name="(oracle only)", kinds=["blocked_by_suspended_send", "panic", "invented", "duplicate", "lost"]) for k in UNI_KINDS + MULTI1_KINDS],
     rule="producer 0 starts send_with_async and stays suspended until every other producer (plain sends) has finished; stream tasks poll meanwhile; every ring / lock / streams-manager hook is a yield point; NON-TRIVIAL if a stream parked and a wake call happened",
     trusted_base=TB_COMMON,
     assumptions=[],
@@ -177,6 +179,34 @@ PROPS = {
     scenarios=[dict(bin="multi", args=[f"kind={k}", "sub=hist", "drains=1"], runs=400, model_name="M6+M7 Multi", kinds=["stale_event", "invented", "duplicate", "order", "missed_event", "panic", "no_progress", "different_allocation"]) for k in MULTI_KINDS],
     rule="one thread, random history of length 4-22 of create-listener / send / receive 1-8 / drop-listener (with or without unconsumed events), MAX_STREAMS in {1,2,4}; DISTINCT by trace hash; NON-TRIVIAL if a listener was dropped and at least two were created",
     trusted_base=TB_COMMON + ["crossbeam-channel: linearizable bounded queue"],
+    assumptions=[],
+ ),
+ "C11": dict(
+    level_text="Lean 4 proof about the per-item decision function of the four executor kinds (transcribed from the spawn_* functions) folded over ANY item list: the three counters add up to the number of items, each item feeds exactly one, the error callback runs once per failed item and never otherwise, a failed or timed-out item does not stop the fold, with a futures timeout every slow item is counted as timed out, and the event machine never has more item futures in flight than the limit. Tied to the code at history level: the counters handed to the real close callback, the error-callback invocation count and the measured maximum of concurrently running item futures of real tokio runs are compared with the model's fold (every kind x timeout x instruments x limit 1-8 x random item sequences).",
+    level_note="The decision table is hand-transcribed (model M10); tokio::time::timeout cancels at the deadline and futures::for_each{,_concurrent} respects its limit and visits every item - contracts, trusted and measured. Metrics-enabled instruments only (without metrics nothing is counted, by design); the fifth, internal spawn_non_futures_executor (failures counted, no callback parameter) is outside the four kinds of the property; concurrency_limit = 0 means unlimited in futures 0.3 and is outside the quantifier (limits 1..8).",
+    lean=["C11"],
+    scenarios=[dict(bin="exec", args=["sub=account"], runs=160, model_name="M10 Exec"), dict(bin="exec", args=["sub=account", "rt=multi"], runs=12, single=True, model_name="M10 Exec")],
+    rule="random executor kind, timeout on/off (futures kinds), instruments in {metrics, logs+metrics, none}, limit 1-8, 0-12 items over {ok, err, slow, slow-then-err}; paused-clock current-thread tokio runtime (+ a few multi-thread real-time runs); DISTINCT by trace hash; NON-TRIVIAL if the sequence contains an error or a slow item",
+    trusted_base=TB_COMMON + ["tokio (task scheduling, paused clock, time::timeout) and futures 0.3 (for_each, for_each_concurrent) behave as documented"],
+    assumptions=["metrics enabled"],
+ ),
+ "C06": dict(
+    level_text="Lean 4 proof about the event machine of one executor and its channel (accepted / yielded / finished / close called / close returned / callback; internal steps: flush sees nothing pending -> cancel; cancelled stream ends when nothing is buffered; for_each drops the stream after the item in flight, for_each_concurrent as soon as the stream ended): for sequential executors and for non-future items, whenever close has returned every event accepted before the call is processed, nothing is in flight, the stream is dropped; accepted events are never discarded (pending ++ inflight ++ finished is a permutation of the accepted ids); counterexample theorem for concurrent executors with future items (recorded finding). Tied to the code at history level: event logs of real Uni runs on tokio must be accepted by the machine (they are, including the failing ones) and are judged by the oracle.",
+    level_note="Model M11 covers closes with an unbounded timeout; tokio / futures contracts trusted (which orders occur is observed, the model allows every order they could choose). Known finding D6.",
+    lean=["C06"],
+    scenarios=[dict(bin="exec", args=["sub=close"], runs=200, model_name="M11 Exec", kinds=["close_before_processed", "panic"]), dict(bin="exec", args=["sub=close", "rt=multi"], runs=12, single=True, model_name="M11 Exec", kinds=["close_before_processed", "panic"])],
+    rule="random executor kind, limit 1-4, 0-6 events (sync / future / slow / failing items), close() called 1 ms after the sends (events buffered and / or in flight); DISTINCT by event log; NON-TRIVIAL if more than one event",
+    trusted_base=TB_COMMON + ["tokio and futures 0.3 contracts as in C11"],
+    assumptions=["unbounded close timeout"],
+ ),
+ "C12": dict(
+    level_text="Lean 4 proof on the same event machine: the close callback occurs at most once, only when the stream is dropped and nothing is in flight, and no item is yielded or finished after it, for every executor kind and limit; status word: register_execution_finish only produces one of the two ended states and ProgrammaticallyEnded exactly from ScheduledToFinish (remark theorem: a report_scheduled_to_finish store landing after it leaves a non-ended status); the Uni latch fires the user callback exactly once, at the n-th executor; with the newies executor spawned inside the oldies' callback every old item is processed before any new one. Tied to the code at history level (event logs of real tokio runs; status and start/finish deltas read inside the real callback).",
+    level_note="Model M10/M11; tokio / futures contracts trusted; the status race of the remark theorem was searched for on the real code and not exhibited (it needs flush_and_cancel_executor concurrent with the stream's own end).",
+    lean=["C12"],
+    scenarios=[dict(bin="exec", args=["sub=close"], runs=200, model_name="M11 Exec", kinds=["close_callback_count", "callback_before_last_item", "status_not_ended", "finish_before_start", "panic"]),
+               dict(bin="exec", args=["sub=account"], runs=100, model_name="M10 Exec", kinds=["close_callback_count", "panic"])],
+    rule="as C06/C11; DISTINCT by event log",
+    trusted_base=TB_COMMON + ["tokio and futures 0.3 contracts as in C11"],
     assumptions=[],
  ),
 }
